@@ -268,11 +268,6 @@ Record exact (X : oracle) (A asz : Z -> Z) : Prop := {
   ex_assign : forall a t v, o_outs (X "assign" [a] t v) = [a];
   ex_add : forall a b t v, o_outs (X "add" [b; a] t v) = [(a + b) mod W];
   ex_sub : forall a b t v, o_outs (X "sub" [b; a] t v) = [(a - b) mod W];
-  (* used to bound array indices: mod a m, shl s x, mul, lt a b (operands in IR order) *)
-  ex_mod : forall a m t v, o_outs (X "mod" [m; a] t v) = [if m =? 0 then 0 else a mod m];
-  ex_shl : forall x s t v, o_outs (X "shl" [x; s] t v) = [if s <? 256 then (x * 2 ^ s) mod W else 0];
-  ex_mul : forall a b t v, o_outs (X "mul" [b; a] t v) = [(a * b) mod W];
-  ex_lt : forall a b t v, o_outs (X "lt" [b; a] t v) = [if a <? b then 1 else 0];
   ex_alloca : forall id t v, o_outs (X "alloca" [asz id; id] t v) = [A id];
   ex_store : forall s, is_cell_sp s = true -> forall p w t v i, 0 <= w < W -> 0 <= i < width s ->
       norm s (o_cell (X (store_op s) [w; p] t v) s (p + i)) = enc s w i;
